@@ -45,6 +45,7 @@ type World struct {
 	extDir    string
 	stmtCache map[token.Pos]string
 	stmtPos   map[token.Pos]token.Pos
+	writingBaseline bool
 }
 
 func loadWorld(repo string, patterns []string, extDir string) (*World, error) {
